@@ -55,8 +55,10 @@ Definition glide_new (fs : f32) : option glide :=
     end
   else None.
 
+(** [-0.0] is replaced by [+0.0] first ([if t == 0.0 { 0.0 } else { t }]) *)
 Definition glide_f0 (g : glide) (t : f32) : f32 :=
-  fmin (fmax (fdiv f_1 t) (g_min_fc g)) (g_max_fc g).
+  let t' := if feq t f_0 then f_0 else t in
+  fmin (fmax (fdiv f_1 t') (g_min_fc g)) (g_max_fc g).
 
 Definition glide_set_time (g : glide) (t : f32) : option glide :=
   if is_almost t (g_cached_t g) GL_EPS then Some g
